@@ -139,6 +139,9 @@ type History struct {
 	Tables []*TableDef
 	nextTS uint32
 	marker int
+	overflow bool
+	replicaID uint32
+	byID      map[uint64]*TableDef
 }
 
 // GenOpts tunes the history generator per property.
@@ -160,6 +163,9 @@ type GenOpts struct {
 	TableIDReuse bool // several ids, re-announcements, type changes
 	OddNames     bool // unusual binlog file names
 	CountChange  bool // C15: a cached table id is re-announced with another column count
+	Rare         bool // enable the rare-coincidence modes (long histories, exact packet sizes, many rows, extreme timestamps)
+	ReplicaID    uint32 // the replica's own server id (events may legitimately carry it: circular topologies)
+	HaveReplica  bool
 	Jumbo        bool // one value large enough to split the event over several MySQL packets
 }
 
@@ -282,6 +288,7 @@ type builder struct {
 	off  uint32
 	unit int
 	forceRows bool // every rows event carries at least one row
+	unitSID   uint32 // server id stamped on the events of the current unit (0 = the master's)
 }
 
 func (b *builder) curFile() *BinFile { return b.h.Files[b.file] }
@@ -296,9 +303,16 @@ func (b *builder) add(typ byte, ts uint32, flags uint16, body []byte, desc strin
 	if withCk {
 		sz += 4
 	}
-	ev := &Event{Type: typ, Timestamp: ts, ServerID: cfg.MasterID, Flags: flags, Body: body,
+	sid := cfg.MasterID
+	if b.unitSID != 0 && b.unit >= 0 && typ != evFormatDesc && typ != evRotate {
+		sid = b.unitSID
+	}
+	ev := &Event{Type: typ, Timestamp: ts, ServerID: sid, Flags: flags, Body: body,
 		File: b.file, Offset: b.off, End: b.off + sz, Desc: desc, Unit: b.unit}
-	ev.Raw = encodeEvent(ts, typ, cfg.MasterID, ev.End, flags, body, withCk)
+	if uint64(b.off)+uint64(sz) > 1<<32-1 {
+		b.h.overflow = true // offsets are 32 bit: this history cannot exist
+	}
+	ev.Raw = encodeEvent(ts, typ, sid, ev.End, flags, body, withCk)
 	b.off = ev.End
 	f := b.curFile()
 	f.Events = append(f.Events, ev)
@@ -733,6 +747,17 @@ func (b *builder) addUnit(kind unitKind) {
 	h.Units = append(h.Units, u)
 	startIdx := len(b.curFile().Events)
 	ts := h.ts(s)
+	// the originating server of a unit: the master itself, another upstream
+	// server, or (circular topologies) the replica's own id
+	b.unitSID = 0
+	switch s.Weighted(12, 1, 1) {
+	case 1:
+		if b.o.HaveReplica {
+			b.unitSID = b.o.ReplicaID
+		}
+	case 2:
+		b.unitSID = 1 + uint32(s.N(1<<16))
+	}
 	mix := b.o.CaseMix
 	beginSQL := func() string {
 		return mixCase(s, "BEGIN", mix)
@@ -855,23 +880,84 @@ func (b *builder) singleRowsEvent(ts uint32, t *TableDef) []ExpEvent {
 	return []ExpEvent{ee}
 }
 
-// GenHistory draws a complete history.
-func GenHistory(s *Stream, o *GenOpts) *History {
+// GenHistory draws a complete history. A draw whose file would outgrow the
+// 32-bit offset space (large values behind a sparse prefix near 2^32) is
+// replaced by a draw without the sparse prefix.
+func GenHistory(s *Stream, o0 *GenOpts) *History {
+	h := genHistory(s, o0)
+	if h.overflow {
+		o2 := *o0
+		o2.BigOffsets = false
+		h = genHistory(s, &o2)
+	}
+	return h
+}
+
+func genHistory(s *Stream, o0 *GenOpts) *History {
+	oc := *o0 // private copy: the rare modes below rewrite some knobs for this history only
+	o := &oc
 	h := &History{nextTS: 1500000000 + uint32(s.N(100000000))}
+	exact := false
+	manyTables := 0
+	if o.Rare {
+		switch s.Weighted(20, 1, 1, 1, 1) {
+		case 1: // event timestamps around 2^31 / 2^32 / 0
+			h.nextTS = []uint32{0, 1<<31 - 40, 1<<32 - 4000, 1}[s.N(4)]
+		case 2: // a long history of small units: more than 256 packets on one connection
+			o.MinUnits, o.MaxUnits = 50, 110
+			o.MaxStmts, o.MaxRows, o.MaxCols, o.MaxTables = 2, 2, 3, 6
+			o.Prof = genProfile{MaxStr: 6, Kinds: []colKind{kTiny, kLong, kVarchar, kYear}}
+			o.WideTables = false
+		case 3: // rows events with hundreds of rows
+			o.MaxRows = 300
+			o.MaxCols = 3
+			o.MaxUnits = minInt(o.MaxUnits, 4)
+			o.Prof = genProfile{MaxStr: 4, Kinds: []colKind{kTiny, kShort, kVarchar}}
+			o.WideTables = false
+		case 4: // packets of exactly critical sizes
+			exact = true
+		}
+		switch s.Weighted(40, 1, 1) {
+		case 1: // more than 1024 / 2048 distinct table ids on one connection
+			manyTables = 1030 + s.N(40)
+			if s.Chance(1, 4) {
+				manyTables = 2050 + s.N(20)
+			}
+			o.MaxCols, o.MaxRows = 2, 1
+			o.Prof = genProfile{MaxStr: 4, Kinds: []colKind{kTiny, kLong, kVarchar}}
+			o.WideTables = false
+			o.MaxTables = manyTables
+			o.TableIDReuse, o.CountChange = false, false
+		case 2: // transactions with many changes: every event count up to ~40 is reached
+			o.MaxStmts = 4 + s.N(12)
+			o.MaxRows, o.MaxCols = 1, 2
+			o.MinUnits = maxInt(o.MinUnits, 3)
+			o.MaxUnits = maxInt(o.MaxUnits, 4)
+			o.Prof = genProfile{MaxStr: 4, Kinds: []colKind{kTiny, kLong, kVarchar}}
+		}
+	}
 	h.Cfg = genHistCfg(s, o)
 	ntab := 1 + s.N(o.MaxTables)
+	if manyTables > 0 {
+		ntab = manyTables
+	}
 	idBase := uint64(100 + s.N(1000))
 	if s.Chance(1, 8) {
+		// the highest ids that still fit the table-id field
 		if h.Cfg.TableID4 {
-			idBase = 1<<32 - 10
+			idBase = 1<<32 - 2 - uint64(ntab)
 		} else {
-			idBase = 1<<48 - 10
+			idBase = 1<<48 - 2 - uint64(ntab)
 		}
 	}
 	for i := 0; i < ntab; i++ {
 		t := genTable(s, i, o)
 		t.ID = idBase + uint64(i)
 		h.Tables = append(h.Tables, t)
+	}
+	if exact {
+		h.Tables = append(h.Tables, &TableDef{ID: idBase + uint64(ntab), DB: "db", Name: "exact",
+			Cols: []ColDef{{Name: "payload", Kind: kBlob, TypeCode: tBlob, Meta: []byte{4}, P1: 4}}})
 	}
 	b := &builder{h: h, s: s, o: o, unit: -1}
 	gap := uint32(0)
@@ -886,6 +972,18 @@ func GenHistory(s *Stream, o *GenOpts) *History {
 		}
 	}
 	b.startFile(b.nextFileName(), gap)
+	if manyTables > 0 {
+		// every table is used for the first time by a one- or two-table statement
+		for i := 0; i < ntab; {
+			n := 1 + s.N(2)
+			if i+n > ntab {
+				n = ntab - i
+			}
+			b.addTxWithTables(h.Tables[i : i+n])
+			i += n
+		}
+		return h
+	}
 	nunits := o.MinUnits + s.N(o.MaxUnits-o.MinUnits+1)
 	rotLeft := o.MaxFiles - 1
 	w := o.UnitWeights
@@ -900,6 +998,10 @@ func GenHistory(s *Stream, o *GenOpts) *History {
 		}
 		if o.IgnorableGap > 0 && s.Chance(1, o.IgnorableGap) && k != uIgnorable {
 			b.addUnit(uIgnorable)
+		}
+		if exact && s.Chance(1, 2) {
+			b.addExactUnit()
+			continue
 		}
 		if o.TableIDReuse && s.Chance(1, 4) {
 			// the table keeps its id, name, column count, column names and
@@ -923,7 +1025,134 @@ func GenHistory(s *Stream, o *GenOpts) *History {
 			b.addUnit(uTxXID) // never delivered: the stream ended at the poison unit
 		}
 	}
+	if h.Files[0].Gap > 0 && !h.overflow && s.Chance(1, 2) {
+		h.alignFile0(s)
+	}
 	return h
+}
+
+// addTxWithTables: BEGIN, one rows statement over the given tables, XID.
+func (b *builder) addTxWithTables(tables []*TableDef) {
+	s := b.s
+	h := b.h
+	u := &Unit{Kind: uTxXID, File: b.file, Start: b.off}
+	b.unit = len(h.Units)
+	h.Units = append(h.Units, u)
+	startIdx := len(b.curFile().Events)
+	ts := h.ts(s)
+	b.unitSID = 0
+	b.queryEvent(ts, "db", "BEGIN")
+	exps := b.rowsStatement(ts, tables)
+	commit := b.add(evXID, ts, 0, le64(nil, s.U64()), "XID")
+	u.Tx = &ExpTx{Unit: b.unit, Next: b.posOf(commit), Timestamp: int64(commit.Timestamp), Events: exps, Commit: commit}
+	u.End = b.off
+	u.Events = b.curFile().Events[startIdx:]
+	u.Desc = unitKindNames[uTxXID]
+}
+
+// alignFile0 shifts the sparse part of the first file so that one commit ends
+// exactly on a critical 32-bit offset (2^31-1, 2^31, 2^32-2, 2^32-1, 2^24).
+func (h *History) alignFile0(s *Stream) {
+	f := h.Files[0]
+	var cands []*Unit
+	for _, u := range h.Units {
+		if u.File == 0 && u.Tx != nil {
+			cands = append(cands, u)
+		}
+	}
+	if len(cands) == 0 {
+		return
+	}
+	target := []uint64{1<<31 - 1, 1 << 31, 1<<32 - 2, 1<<32 - 1, 1 << 24, 1<<32 - 1}[s.N(6)]
+	u := cands[s.N(len(cands))]
+	if target >= 1<<32-2 {
+		u = cands[len(cands)-1]
+	}
+	delta := int64(target) - int64(u.End)
+	headEnd := int64(f.Head[len(f.Head)-1].End)
+	if int64(f.Gap)+delta <= headEnd || int64(f.Size)+delta > 1<<32-1 {
+		return
+	}
+	withCk := h.Cfg.Checksum
+	for _, e := range f.Events {
+		if e.Offset < f.Gap {
+			continue // head events stay at the start of the file
+		}
+		e.Offset = uint32(int64(e.Offset) + delta)
+		e.End = uint32(int64(e.End) + delta)
+		e.Raw = encodeEvent(e.Timestamp, e.Type, e.ServerID, e.End, e.Flags, e.Body, withCk)
+	}
+	for _, x := range h.Units {
+		if x.File != 0 {
+			continue
+		}
+		x.Start = uint32(int64(x.Start) + delta)
+		x.End = uint32(int64(x.End) + delta)
+		if x.Tx != nil {
+			x.Tx.Next.Off += delta
+		}
+	}
+	f.Gap = uint32(int64(f.Gap) + delta)
+	f.Size = uint32(int64(f.Size) + delta)
+}
+
+func maxInt(a, b int) int {
+	if a > b {
+		return a
+	}
+	return b
+}
+
+// criticalPacketSizes are MySQL packet payload lengths (1 status byte + event)
+// around the driver's buffer size, its cache limit, one-byte/two-byte length
+// boundaries and the 2^24-1 split point.
+var criticalPacketSizes = []int{250, 251, 252, 255, 256, 257, 4091, 4092, 4093, 4095, 4096, 4097, 4100, 8191, 8192, 8193,
+	65535, 65536, 65537, 262139, 262140, 262141, 262143, 262144, 262145, 262148}
+
+// addExactUnit adds an autocommitted insert into the single-blob table whose
+// packet payload has exactly one of the critical sizes (or is within +-3).
+func (b *builder) addExactUnit() {
+	s := b.s
+	h := b.h
+	cfg := &h.Cfg
+	t := h.Tables[len(h.Tables)-1]
+	target := criticalPacketSizes[s.N(len(criticalPacketSizes))] + s.N(7) - 3
+	if s.Chance(1, 60) {
+		target = 1<<24 - 1 + s.N(5) - 2 // split over two MySQL packets (or exactly at the limit)
+	}
+	u := &Unit{Kind: uAutoRows, File: b.file, Start: b.off}
+	b.unit = len(h.Units)
+	h.Units = append(h.Units, u)
+	startIdx := len(b.curFile().Events)
+	ts := h.ts(s)
+	// always announced as a single LONGBLOB column, whatever other statements did to the table
+	b.add(evTableMap, ts, 0, tableMapBody(cfg.Format, t.ID, t.Flags, t.DB, t.Name, []byte{tBlob}, []byte{4}, []bool{false}, nil), fmt.Sprintf("TABLE_MAP id=%d db.exact", t.ID))
+	typ := byte(evWriteRowsV1)
+	if cfg.RowsV2 {
+		typ = evWriteRowsV2
+	}
+	head := rowsBodyHeader(cfg.Format, cfg.RowsV2, t.ID, 1, nil, 1, []bool{true})
+	// event = 19 + head + null bitmap (1) + 4-byte length + n (+4 checksum); packet payload = 1 + event
+	fixed := 1 + binlogHeaderSize + len(head) + 1 + 4
+	if cfg.Checksum {
+		fixed += 4
+	}
+	n := target - fixed
+	if n < 0 {
+		n = 0
+	}
+	p := payload(s, n)
+	body := append(head, 0)
+	body = leN(body, uint64(n), 4)
+	body = append(body, p...)
+	ev := b.add(typ, ts, 0, body, fmt.Sprintf("ROWS(exact) packet payload=%d", 1+len(body)+binlogHeaderSize))
+	v := Val{Enc: nil, Text: p}
+	ee := ExpEvent{StType: stInsert, DB: t.DB, Table: t.Name, Timestamp: int64(ts), Marker: h.newMarker(),
+		Values: [][]ExpCol{{{Name: "payload", Type: tBlob, Val: &v}}}}
+	u.Tx = &ExpTx{Unit: b.unit, Next: b.posOf(ev), Timestamp: int64(ev.Timestamp), Events: []ExpEvent{ee}, Commit: ev}
+	u.End = b.off
+	u.Events = b.curFile().Events[startIdx:]
+	u.Desc = fmt.Sprintf("exact-size(%d)", target)
 }
 
 // addPoisonUnit: BEGIN, a table map that re-announces an existing table id with
